@@ -127,3 +127,19 @@ Theorem C15_spec_runner : forall (before flags env after : options),
   spec_runner before flags env after = runner_level before flags env after.
 Proof. exact spec_runner_correct. Qed.
 Print Assumptions C15_spec_runner.
+
+(** [skip_ext_time] as the bench loop reads it: first set value in precedence
+    order, else false. *)
+Theorem C15_skip_ext_time : forall (runner : options) (groups : list (option options)) (bench : option options),
+  effective_skip_ext (resolve runner groups bench)
+  = match first_some (precedence o_skip_ext_time runner groups bench) with Some b => b | None => false end.
+Proof. exact skip_ext_resolution. Qed.
+Print Assumptions C15_skip_ext_time.
+
+(** The runner-only [bytes_format]: builder call after parsing, then flag, then
+    DIVAN_BYTES_FORMAT, then builder call before parsing, else decimal. *)
+Theorem C15_runner_bytes_format : forall (before flag env after : option bool),
+  bytes_format_level before flag env after
+  = match first_some [after; flag; env; before] with Some b => b | None => false end.
+Proof. exact bytes_format_level_spec. Qed.
+Print Assumptions C15_runner_bytes_format.
